@@ -10,7 +10,7 @@ use std::collections::BTreeSet;
 use std::sync::atomic::{AtomicU64, Ordering};
 use std::sync::{Arc, Mutex};
 
-const CALLS: [(&str, &str); 20] = [
+const CALLS: [(&str, &str); 23] = [
   ("All", r#"{A: 5, S: "abcz"}"#),
   ("Quote", r#"{A: 500, S: "xyz"}"#),
   ("All", r#"{A: 42, S: "aeiouz"}"#),
@@ -36,7 +36,14 @@ const CALLS: [(&str, &str); 20] = [
   // positional and named, of another function
   ("Batch", r#"{A: 5}"#),
   ("Gross", r#"{A: 100}"#),
+  // a table with the UNIQUE hit policy whose rules overlap: one rule matches, two rules match (null is the value), another rule matches
+  ("Grade", r#"{A: 60}"#),
+  ("Grade", r#"{A: 95}"#),
+  ("Grade", r#"{A: 10}"#),
 ];
+
+/// calls whose value is null when made alone (everywhere else a null made alone means the model file is not what the table expects)
+const NULL_ALONE: [usize; 1] = [21];
 
 fn ctx(text: &str) -> FeelContext {
   dmntk_feel_evaluator::evaluate_context(&Scope::default(), text).expect("input context")
@@ -74,7 +81,7 @@ fn main() {
   }
   let alone: Vec<String> = alone.lock().unwrap().clone();
   println!("ALONE {:?}", alone);
-  if alone.iter().any(|v| v.starts_with("null")) {
+  if alone.iter().enumerate().any(|(i, v)| v.starts_with("null") != NULL_ALONE.contains(&i)) {
     eprintln!("MACHINERY a call made alone is null: {:?}", alone);
     std::process::exit(2);
   }
